@@ -46,16 +46,23 @@ def run(ctx):
     ctx.rule = ("Rpms.add: full argument-class matrix (arch x rpm x name form x path x sigkey x category x srpm x srpm form) "
                 "in one call, all histories of valid/near-valid adds to depth 2/3, random depth-7 behaviours from tlc "
                 "-simulate; Modules.add / ExtraFiles.add / dump_for_tree likewise from BuildersGen.tla; every behaviour "
-                "replayed on the real classes comparing exception class and the whole mapping after each call. "
+                "replayed on the real classes comparing exception class and the whole mapping after each call; recorded Rpms executions "
+                "(repository tests + seeded random driver: name spellings, deletions, reloads) validated by TLC against Trace_Rpms.tla. "
                 "non-trivial = distinct history")
     ctx.assumptions += ["argument classes are represented by 2 name tables x 3 arch tables, rotated"]
     cases = rpms_cases(ctx, "C12")
     ctx.exhaustive = True
     ctx.evaluate(R.replay, cases, label="rpms-history", key=lambda c: core._digest([c["hist"], c["rot"]]))
     B.run_builders(ctx, "C12")
+    # code -> spec: recorded executions (the repository's tests, a seeded random driver with larger pools) against Trace_Rpms.tla
+    from . import rpms_traces
+    rpms_traces.validate(ctx)
 
 
 def replay(info):
     if info["kind"] == "rpms-history":
         return R.replay(info["case"])
+    if info["kind"] == "rpms-trace":
+        from . import rpms_traces
+        return rpms_traces.replay(info)
     return B.replay(info)
